@@ -1,0 +1,20 @@
+//go:build verif
+
+package cff
+
+import "github.com/go-text/typesetting/font/opentype/tables"
+
+// Verification hook for property C09 (add-only, compiled only with the build tag `verif`).
+
+// VerifFdSelect parses an FDSelect structure (formats 0, 3, 4) like the CFF / CFF2 parsers do and
+// returns its look-up function and extent().
+func VerifFdSelect(src []byte, nGlyphs int) (lookup func(g uint16) (byte, bool), extent int, err error) {
+	fds, _, err := parseFdSelect(src, nGlyphs)
+	if err != nil {
+		return nil, 0, err
+	}
+	return func(g uint16) (byte, bool) {
+		fd, err := fds.fontDictIndex(tables.GlyphID(g))
+		return fd, err == nil
+	}, fds.extent(), nil
+}
